@@ -90,6 +90,8 @@ func buildPlan(env *runner.Env) {
 		{"lenprefix", pick(2000, 50000)},
 		{"splice", pick(2000, 50000)},
 		{"stream", pick(800, 10000)},
+		{"sei-ffsize", seiFFSizeCount()},
+		{"mp4-tool", mp4ToolCount(th)},
 	}
 	planTotal = 0
 	for _, p := range plan {
@@ -152,6 +154,7 @@ func init() {
 			}
 			seeds = s
 			defaultMaps = buildDefaultMaps(s)
+			loadRealMP4s(env)
 			buildPlan(env)
 			return nil
 		},
@@ -205,6 +208,11 @@ func run(c *runner.Ctx, idx int) {
 		genSplice(x)
 	case "stream":
 		genStream(x)
+	case "sei-ffsize":
+		j = genSEIFFSize(sub)
+	case "mp4-tool":
+		runMP4Case(c, genMP4(c.Rand, sub))
+		return
 	default:
 		c.Inconclusive("case index outside the plan")
 		return
@@ -287,6 +295,13 @@ func replay(c *runner.Ctx, detail json.RawMessage) {
 	if mode == "" {
 		mode = "all"
 	}
+	if mode == "mp4-tool" {
+		// the input is a whole mp4 file: both tools, every option set
+		runMP4Tools(c, in, "", "replay: "+w.Case, nil)
+		c.Nontrivial(1)
+		c.Nontrivial(2)
+		return
+	}
 	j := &job{items: []item{{In: in, Desc: "replay: " + w.Case, Mode: mode, Types: w.Types}}, chain: w.Chain}
 	drive(c, j)
 	if strings.HasPrefix(w.Op, "tool:") {
@@ -294,6 +309,39 @@ func replay(c *runner.Ctx, detail json.RawMessage) {
 	}
 	c.Nontrivial(1)
 	c.Nontrivial(2)
+}
+
+// runMP4Case: the hostile sample and the hostile configuration record go
+// through the library operations like any other input, then the file goes to
+// the tools.
+func runMP4Case(c *runner.Ctx, mc *mp4Case) {
+	if mc == nil {
+		c.Count("mp4_tool_cases_without_material", 1)
+		return
+	}
+	file, ok := mc.spec.build()
+	if !ok {
+		c.Inconclusive("mp4-tool: the file could not be built")
+		return
+	}
+	c.Seen("mp4_tool_frame", mc.usedFrame)
+	c.Seen("mp4_tool_config_class", mc.spec.cfgType()+" "+mc.cfgClass)
+	c.Seen("mp4_tool_sample_class", mc.spec.codec()+" "+mc.smpClass)
+	c.Seen("mp4_tool_file_len_class", lenClass(len(file)))
+	j := &job{}
+	for i, smp := range mc.spec.Samples {
+		if i < 2 && len(smp) <= 4096 {
+			j.items = append(j.items, item{In: smp, Mode: "all", Desc: fmt.Sprintf("%s -> sample %d handed to the library", mc.desc, i+1)})
+		}
+	}
+	if !mc.spec.NoCfg {
+		j.items = append(j.items, item{In: mc.spec.Config, Mode: "all", Desc: mc.desc + " -> configuration record handed to the library"})
+	}
+	drive(c, j)
+	if c.WantSample() {
+		c.Sample(map[string]interface{}{"case": mc.desc, "file_len": len(file), "file_hex_head": head(hexs(file), 200)})
+	}
+	runMP4Tools(c, file, mc.spec.codec(), mc.desc, []string{mc.spec.Frame, mc.cfgClass, mc.smpClass})
 }
 
 func finalize(a *runner.Agg) {
@@ -317,6 +365,25 @@ func finalize(a *runner.Agg) {
 	}
 	if a.Counters["tool_runs"] == 0 {
 		a.Note("the mp4ff-nallister/mp4ff-pslister binaries were not run (missing under $VERIF_BIN/tools?)")
+	}
+	if a.Counters["tool_runs"] > 0 && a.Counters["tool_runs_on_mp4_files"] == 0 {
+		a.Note("mp4-tool: no tool run on an mp4 file")
+	}
+	for k, n := range a.Seen["mp4_tool_exit_on_wellformed_file"] {
+		// the files this monitor writes must be files the tools accept, otherwise the hostile content behind the container parser is never reached
+		if n > 0 && !strings.HasSuffix(k, " exit 0") && !strings.HasPrefix(k, "mp4ff-pslister seg-only") {
+			a.Note("mp4-tool: a file with valid samples and a valid configuration record was not accepted: %s (%d runs)", k, n)
+		}
+	}
+	for k := range a.Seen["mp4_tool_frame"] {
+		if strings.HasSuffix(k, "(fallback)") {
+			a.Note("mp4-tool: a test file of the repo was not usable as a frame, built frame used instead: %s", k)
+		}
+	}
+	if v, ok := a.Maxes["sei_extraction_max_allocated_bytes_per_input_byte_x100(inputs >= 256 bytes)"]; ok {
+		a.Extra["sei_extraction_allocation"] = fmt.Sprintf("largest allocation of one SEI extraction call: %d bytes; largest ratio allocated/input bytes (inputs >= 256 bytes): %.1f "+
+			"(sei.ExtractSEIData allocates the size announced by an ff-run size field before reading; the statement's 'small multiple' is read as the bound below, which a factor of 256 does not cross)",
+			a.Maxes["sei_extraction_max_allocated_bytes_in_one_call"], float64(v)/100)
 	}
 	_ = os.Remove(sharedKnownPath(os.Getpid()))
 	a.Extra["alloc_bound"] = "8 MiB + 1024*len(input) bytes per call"
@@ -597,9 +664,17 @@ func genLenPrefix(x *runCtx) {
 		x.desc = fmt.Sprintf("lenprefix: sample of %d bytes", len(x.in))
 		return
 	}
+	x.in, x.desc = lenPrefixSample(r, "")
+}
+
+// lenPrefixSample: 1..4 seed units framed with 4-byte lengths, one or two of
+// the length fields hostile (codec "": drawn).
+func lenPrefixSample(r *runner.Rand, codec string) ([]byte, string) {
 	n := 1 + r.Intn(4)
 	var units [][]byte
-	codec := r.PickStr("avc", "hevc")
+	if codec == "" {
+		codec = r.PickStr("avc", "hevc")
+	}
 	for i := 0; i < n; i++ {
 		sd := seeds.pick(r, codec+"-sps", codec+"-pps", codec+"-slice", codec+"-sei", codec+"-slice")
 		u := sd.b
@@ -636,8 +711,7 @@ func genLenPrefix(x *runCtx) {
 		s = s[:len(s)-r.Intn(minInt(len(s), 6))]
 		desc += " tail-cut"
 	}
-	x.in = s
-	x.desc = "lenprefix: " + codec + " sample," + desc
+	return s, "lenprefix: " + codec + " sample," + desc
 }
 
 func minInt(a, b int) int {
